@@ -102,7 +102,7 @@ func histCases(d histDesc) []hx.Case {
 	}
 	fail := func(msg, key string) []hx.Case {
 		c.GoFail, c.FailKey = msg, key
-		c.Coq = fmt.Sprintf("CHist false [%s] [%s] JNull JNull JNull [] false JNull JNull JNull 0 0",
+		c.Coq = fmt.Sprintf("CHist false [%s] [%s] JNull JNull JNull [] false None None None 0 0",
 			strings.Join(opsCoq, ";\n  "), strings.Join(oks, ";"))
 		return []hx.Case{c}
 	}
@@ -139,11 +139,19 @@ func histCases(d histDesc) []hx.Case {
 		digApp = digest(out).s
 	}
 
+	// an after-tree that renders to the same text as the before-tree is written as None (parsing the case
+	// files dominates the cost of a run)
+	same := func(before, after jv) string {
+		if x := after.Coq(); x != before.Coq() {
+			return "(Some " + x + ")"
+		}
+		return "None"
+	}
 	render := func(modulo bool, sumB, artB, f2 jv, d2, dApp string) string {
 		return fmt.Sprintf("CHist %v\n [%s]\n [%s]\n %s\n %s\n %s\n [%s] %v\n %s\n %s\n %s\n %s %s",
 			modulo, strings.Join(opsCoq, ";\n  "), strings.Join(oks, ";"),
 			a.sum.Coq(), a.art.Coq(), a.sv.info.tree.Coq(), strings.Join(digs, ";"), ro.ok,
-			sumB.Coq(), artB.Coq(), f2.Coq(), d2, dApp)
+			same(a.sum, sumB), same(a.art, artB), same(a.sv.info.tree, f2), d2, dApp)
 	}
 	c.Coq = render(false, b.sum, b.art, file2, dig2, digApp)
 	c.Nontriv = a.sv.info.nDeps >= 1 && len(a.sv.info.ids) >= 2
@@ -233,7 +241,7 @@ func fileCase(d fileDesc, withArts bool) hx.Case {
 	c := hx.Case{Kind: "file", Desc: d, Key: "file|" + d.Path, Nontriv: true}
 	bad := func(msg string) hx.Case {
 		c.GoFail, c.FailKey = msg, "graph:example-file"
-		c.Coq = "CFile JNull JNull JNull JNull 0 1"
+		c.Coq = "CFile JNull None JNull None 0 1"
 		return c
 	}
 	raw, err := os.ReadFile(filepath.Join(repoDir(), d.Path))
@@ -265,7 +273,13 @@ func fileCase(d fileDesc, withArts bool) hx.Case {
 	if err != nil {
 		return bad("second re-saved file: " + err.Error())
 	}
-	c.Coq = fmt.Sprintf("CFile\n %s\n %s\n %s\n %s\n %s %s", t1.Coq(), t2.Coq(), art1.Coq(), art2.Coq(),
+	same := func(before, after jv) string {
+		if x := after.Coq(); x != before.Coq() {
+			return "(Some " + x + ")"
+		}
+		return "None"
+	}
+	c.Coq = fmt.Sprintf("CFile\n %s\n %s\n %s\n %s\n %s %s", t1.Coq(), same(t1, t2), art1.Coq(), same(art1, art2),
 		digest(s1).s, digest(s2).s)
 	// diagnostics only (the verdict is prop_ok's): say what differs
 	if !art1.equal(art2) && len(art1.arr) == len(art2.arr) {
